@@ -762,7 +762,7 @@ def expected_cost(echelon_S,
 	"""
 
 	# Validate echelon_S. (Other parameters will be validated in optimize_base_stock_levels().)
-	if not all(echelon_S.values()): raise ValueError("echelon_S cannot be None for any node")
+	if any(s is None for s in echelon_S.values()): raise ValueError("echelon_S cannot be None for any node")
 
 	_, cost = optimize_base_stock_levels(num_nodes=num_nodes, echelon_holding_cost=echelon_holding_cost,
 										lead_time=lead_time, stockout_cost=stockout_cost,
@@ -843,7 +843,7 @@ def expected_holding_cost(echelon_S,
 	"""
 
 	# Validate echelon_S. (Other parameters will be validated in optimize_base_stock_levels().)
-	if not all(echelon_S.values()): raise ValueError("echelon_S cannot be None for any node")
+	if any(s is None for s in echelon_S.values()): raise ValueError("echelon_S cannot be None for any node")
 
 	# Make copy of network and set stockout cost to 0.
 	if network:
